@@ -21,14 +21,61 @@ Definition obind {A B} (a : outcome A) (f : A -> outcome B) : outcome B :=
 
 Definition bool_str (b : bool) : list Z := if b then str "true" else str "false".
 
+Fixpoint bytes_ltb (a b : list Z) : bool :=
+  match a, b with
+  | _, [] => false
+  | [], _ :: _ => true
+  | x :: a', y :: b' => (x <? y) || ((x =? y) && bytes_ltb a' b')
+  end.
+
+(* fmt's %v of a value inside an array or a map: elements between brackets separated by one space, the entries of
+   a map as key:value in the byte order of the keys (fmt sorts them), strings raw, numbers as at the top level, nil
+   and typed nil pointers as <nil>; None = a rendering that is not modelled (NaN payload digits, Go floats - whose
+   %v spelling depends on their width -, times, structs, functions, other Go values) *)
+Fixpoint insert_ent (e : list Z * list Z) (l : list (list Z * list Z)) : list (list Z * list Z) :=
+  match l with
+  | [] => [e]
+  | x :: t => if bytes_ltb (fst x) (fst e) then x :: insert_ent e t else e :: l
+  end.
+Definition sort_ents (l : list (list Z * list Z)) : list (list Z * list Z) := fold_right insert_ent [] l.
+
+Fixpoint show_value (v : value) : option (list Z) :=
+  match v with
+  | VStr s => Some s
+  | VNum d => if is_nan d then None else Some (dec_to_string d)
+  | VBool b => Some (bool_str b)
+  | VNull | VNilPtr => Some (str "<nil>")
+  | VGoInt _ n => Some (dec_to_string (dec_of_Z n))
+  | VArr l =>
+    match (fix go (l : list value) : option (list (list Z)) :=
+             match l with
+             | [] => Some []
+             | x :: r => match show_value x, go r with Some a, Some b => Some (a :: b) | _, _ => None end
+             end) l with
+    | Some parts => Some (91 :: join_strs parts [32] ++ [93])
+    | None => None
+    end
+  | VMap m =>
+    match (fix go (m : list (list Z * value)) : option (list (list Z * list Z)) :=
+             match m with
+             | [] => Some []
+             | (k, x) :: r => match show_value x, go r with Some a, Some b => Some ((k, a) :: b) | _, _ => None end
+             end) m with
+    | Some ents => Some (str "map[" ++ join_strs (map (fun e => fst e ++ 58 :: snd e) (sort_ents ents)) [32] ++ [93])
+    | None => None
+    end
+  | _ => None
+  end.
+
 (* convToString; None = a Go value whose %v rendering is not modelled *)
 Definition conv_to_string (v : value) : option (list Z) :=
   match v with
   | VStr s => Some s
   | VNum d => if is_nan d then None else Some (dec_to_string d)   (* NaN payload digits are not modelled *)
   | VBool b => Some (bool_str b)
-  | VNull => Some (str "<nil>")
+  | VNull | VNilPtr => Some (str "<nil>")
   | VGoInt _ n => Some (dec_to_string (dec_of_Z n))
+  | VArr _ | VMap _ => show_value v
   | _ => None
   end.
 
@@ -326,17 +373,10 @@ Definition iface_eq (a b : value) : outcome bool :=
   | VNull, VNull => Ok true
   | VBool x, VBool y => Ok (Bool.eqb x y)
   | VStr x, VStr y => Ok (bytes_eqb x y)
-  | VGoInt k x, VGoInt k' y => Ok ((x =? y) && (int_bits k =? int_bits k') && Bool.eqb (int_signed k) (int_signed k'))
+  | VGoInt k x, VGoInt k' y => Ok ((x =? y) && gokind_eqb k k')
   | VNum _, VNum _ => Ok false        (* distinct pointers (identity is decided before this is reached) *)
   | VCtx, VCtx => Ok true
   | _, _ => Ok false
-  end.
-
-Fixpoint bytes_ltb (a b : list Z) : bool :=
-  match a, b with
-  | _, [] => false
-  | [], _ :: _ => true
-  | x :: a', y :: b' => (x <? y) || ((x =? y) && bytes_ltb a' b')
   end.
 
 (* relational operators: string comparison when the LEFT operand is a string *)
